@@ -131,6 +131,7 @@ Proof. intros H k. rewrite skipn_skipn. apply H. Qed.
 Ltac pinj H := repeat (let H2 := fresh "Hp" in apply pair_equal_spec in H; destruct H as [H H2]); subst.
 
 Section Fields.
+  Context {fx : FxEscape}.
   Variable gbk : list N -> Z.
 
   Definition fields (s : lst) (t : tok) (s' : lst) : Prop :=
